@@ -70,7 +70,7 @@ Proof.
   intros I R. pose proof (ensure_grow M TH PG OV jk M_pos s req I) as G.
   pose proof (ensure_ok M TH PG OV jk M_pos TH_ge PG_pos PG_le OV_lt M_le s req true I R) as K.
   destruct (ensure s req true false) as [e s']. cbn [fst] in K. subst e.
-  destruct G as (G1 & G2 & G3 & G4). exists s'. repeat split; trivial. now apply abs_of_prefix.
+  destruct G as (G1 & G2 & G3 & G4). exists s'. splits; trivial. now apply abs_of_prefix.
 Qed.
 Lemma ensure_noretain_ok s req :
   inv s -> req <= LIM ->
@@ -79,7 +79,7 @@ Proof.
   intros I R. pose proof (ensure_noretain M TH PG OV jk M_pos s req I) as G.
   pose proof (ensure_ok M TH PG OV jk M_pos TH_ge PG_pos PG_le OV_lt M_le s req false I R) as K.
   destruct (ensure s req false false) as [e s']. cbn [fst] in K. subst e.
-  destruct G as (G1 & G2 & G3). exists s'. repeat split; trivial.
+  destruct G as (G1 & G2 & G3). exists s'. splits; trivial.
 Qed.
 
 (* overwrite the whole value: memmove(b, data, n); b[n] = 0; SetLength(n) *)
@@ -94,7 +94,7 @@ Proof.
   - rewrite lenN_upd; lia.
   - exact C.
   - apply nthN_upd_same. lia.
-  - unfold s'. repeat split; trivial. rewrite A3.
+  - unfold s'. splits; trivial. rewrite A3.
     rewrite takeN_upd_before by lia. rewrite takeN_blit_0 by lia. apply takeN_all. lia.
 Qed.
 
@@ -111,7 +111,7 @@ Proof.
   - lia.
   - rewrite nthN_blit_in by lia. replace (slen s + lenN data - slen s) with (lenN data) by lia.
     rewrite nthN_app_r by lia. now rewrite N.sub_diag.
-  - unfold s'. repeat split; trivial. rewrite A3.
+  - unfold s'. splits; trivial. rewrite A3.
     rewrite <- (takeN_takeN_le (slen s + lenN data) (slen s + lenN (data ++ [0]))) by lia.
     rewrite takeN_blit_cover by lia.
     fold (abs s). rewrite takeN_app_ge by (rewrite lenN_abs; trivial; lia).
